@@ -3,6 +3,11 @@
    Written independently of the drivers' control flow: a store maps a collection name to the list of its records in
    insertion order; a query is  projection ∘ firstn limit ∘ (one stable sort by the lexicographic comparator) ∘ filter.
 
+   No aliasing.  The store holds VALUES (immutable terms): what a caller later does to a record it was given back, or to a
+   record it handed over, cannot change any later answer.  "Returns the same records as a plain in-memory reference store
+   for any sequence of operations" therefore includes the caller's own in-place edits between two operations; the harness
+   performs such edits after every call (harness/props/c06.py: vandalise) and the outputs must still be [ref_outs].
+
    Values.  The JSON value space plus the two calendar atoms the persistence layer supports.  The harness canonicalises
    Python values into this term language (documented in harness/props/c06.py):
      - str      -> list of code points;
